@@ -387,8 +387,17 @@ def run(p: Program, rep: Report, tier: str) -> None:
     if iq is None:
         raise AnalysisError("URL.include_query_params vanished")
     rep.analysed(iq.fq)
-    built = [c for c in ast.walk(iq.node) if isinstance(c, ast.Call) and isinstance(p.resolve_call(iq, c, url), ClassInfo)]
-    mm = [p.resolve_call(iq, c, url) for c in built]
+    from ..common import with_helpers as _wh185
+    mm = []
+    for f_ in _wh185(p, iq):  # (a decorated helper's own body is a private helper of it)
+        for c in ast.walk(f_.node):
+            if isinstance(c, ast.Call):
+                try:
+                    r_ = p.resolve_call(f_, c, url)
+                except Exception:
+                    r_ = None
+                if isinstance(r_, ClassInfo):
+                    mm.append(r_)
     mm = [c for c in mm if any(getattr(b, "name", "") in ("MultiMapping", "MutableMultiMapping") for b in p.mro(c))]
     if not mm:
         rep.undecide("R18.5", "include_query_params no longer edits a multi-value mapping of the parsed query")
@@ -420,6 +429,56 @@ def run(p: Program, rep: Report, tier: str) -> None:
         if n5 == 0:
             rep.ok("R18.5", f"set semantics of the query helper: {c.name} item assignment/deletion does not delete by position inside a loop")
     rep.require_instances("R18.5", 1)
+
+    # ---------------------------------------------------------------- R18.6 what the three query helpers are given to work on
+    # "act as set, replace and remove on the multi-value query": include / remove edit the pairs of the URL's OWN query, parsed
+    # with blank values kept, and write back all pairs of the edited mapping; replace builds the query from its arguments alone.
+    from ..collect import default_inline
+    SELF_Q = ("attr", ("param", "self"), "query")
+    for hname in ("include_query_params", "remove_query_params", "replace_query_params"):
+        h = url.methods.get(hname)
+        if h is None:
+            raise AnalysisError(f"URL.{hname} vanished")
+        rep.analysed(h.fq)
+        hpaths, _hc, _hi = run_paths(p, h, url, inline=default_inline, depth=3)
+        rep.cfg_paths += len(hpaths)
+        for pa in hpaths:
+            if pa.exit != "return":
+                continue
+            v = pa.value
+            q = dict(v[3]).get("query") if (isinstance(v, tuple) and v[0] == "call" and callee_is(v[1], "replace") and not v[2]) else None
+            if q is None or not (q[0] == "call" and q[1] == ("ext", "urllib.parse.urlencode") and len(q[2]) == 1):
+                rep.undecide("R18.6", f"{hname}: the result is not self.replace(query=urlencode(<pairs>)): {show(v)[:80]}")
+                continue
+            pairs = q[2][0]
+            parses = [t for t in subterms(pairs) if t[0] == "call" and t[1] == ("ext", "urllib.parse.parse_qsl")]
+            if hname == "replace_query_params":
+                if contains(pairs, SELF_Q):
+                    rep.violation("R18.6", construct(h, text="replace_query_params reads the old query"), where(h), "replace_query_params builds the new query from the old one: 'replace' keeps parameters it was not given")
+                elif contains(pairs, ("param", h.node.args.kwarg.arg if h.node.args.kwarg else "kwargs")):
+                    rep.ok("R18.6", "replace_query_params: the new query is built from the arguments alone")
+                else:
+                    rep.undecide("R18.6", f"replace_query_params: pairs not recognised: {show(pairs)[:80]}")
+                continue
+            good = [t for t in parses if t[2][:1] == (SELF_Q,)]
+            if not good:
+                if parses or not contains(pairs, SELF_Q):
+                    rep.violation("R18.6", construct(h, text=f"{hname} does not start from self.query"), where(h),
+                                  f"{hname} does not edit the pairs of the URL's own query (parse_qsl(self.query, ...)): parameters the call does not name are lost or come from elsewhere")
+                else:
+                    rep.undecide("R18.6", f"{hname}: the own query is parsed in an idiom outside the table: {show(pairs)[:80]}")
+                continue
+            kb = dict(good[0][3]).get("keep_blank_values") if len(good[0][2]) == 1 else (good[0][2][1] if len(good[0][2]) > 1 else None)
+            if kb != ("const", True):
+                rep.violation("R18.6", construct(h, text=f"{hname} parses without keep_blank_values"), where(h),
+                              f"{hname} parses the own query without keep_blank_values=True: a parameter with an empty value (?a=&b=1) that the call does not name disappears from the result")
+                continue
+            whole = pairs[0] == "call" and pairs[1][0] == "attr" and pairs[1][2] == "multi_items" and not pairs[2] and pairs[1][1][0] == "call" and pairs[1][1][1][0] == "cls"
+            if not whole:
+                rep.undecide("R18.6", f"{hname}: the pairs written back are not <mapping>.multi_items(): {show(pairs)[:80]}")
+                continue
+            rep.ok("R18.6", f"{hname}: edits MultiMapping(parse_qsl(self.query, keep_blank_values=True)) and writes back all its multi_items()")
+    rep.require_instances("R18.6", 3)
 
 
 def gateway_url_branches(p: Program, rep: Report, rule: str) -> None:
